@@ -332,10 +332,12 @@ class Impl(object):
                 t.remove_prefix_from_webentity(unx_arg(w[1]), int(w[2]))
             return "ok"
         if op == "moveprefix":
+            # the explicit alias for about half of the calls (chosen by the value, so replays agree)
+            mv = t.move_prefix_to_webentity_from_webentity if len(w[1]) % 2 else t.move_prefix_to_webentity
             if w[3] == "-":
-                t.move_prefix_to_webentity(unx_arg(w[1]), int(w[2]))
+                mv(unx_arg(w[1]), int(w[2]))
             else:
-                t.move_prefix_to_webentity(unx_arg(w[1]), int(w[2]), int(w[3]))
+                mv(unx_arg(w[1]), int(w[2]), int(w[3]))
             return "ok"
         if op == "addpage":
             return render_report(t.add_page(unx_arg(w[1]), crawled=(w[2] == "1")))
@@ -526,7 +528,13 @@ class Impl(object):
             return "ok %d" % f(unx_arg(w[1]), weighted=(w[3] == "1"))
         if q == "network":
             out, auto, slow = w[1] == "1", w[2] == "1", w[3] == "1"
-            g = (t.get_webentities_links_slow if slow else t.get_webentities_links)(out=out, include_auto=auto)
+            self.net_calls = getattr(self, "net_calls", 0) + 1
+            if slow:
+                g = t.get_webentities_links_slow(out=out, include_auto=auto)
+            elif self.net_calls % 2:           # the direction-named wrappers are the same request
+                g = (t.get_webentities_outlinks if out else t.get_webentities_inlinks)(include_auto=auto)
+            else:
+                g = t.get_webentities_links(out=out, include_auto=auto)
             return render_graph(g)
         if q == "expand":
             res = t.expand_prefix(unx_arg(w[1]))
